@@ -8,7 +8,7 @@ ENV = dict(os.environ, GOFLAGS="-mod=mod", GOPROXY="off", GOSUMDB="off", GOTOOLC
 
 def build_race():
     out = os.path.join(VERIF, ".build", "vh-race")
-    shutil.copy("/repo/go.sum", os.path.join(VERIF, "harness", "go.sum"))
+    shutil.copy(os.path.join(os.environ.get("VERIF_REPO", "/repo"), "go.sum"), os.path.join(VERIF, "harness", "go.sum"))
     p = subprocess.run(["go", "build", "-race", "-tags", "verif", "-o", out, "./cmd/vh"], cwd=os.path.join(VERIF, "harness"), env=ENV,
                        stdout=subprocess.PIPE, stderr=subprocess.STDOUT, text=True)
     if p.returncode != 0:
